@@ -112,6 +112,27 @@ func convScenarios(tier string) []*mc.Scenario {
 			op("y.n=3", 2, func(w *mc.World) { w.Svc.Change("test.y", "n", `3`) }),
 		}}},
 	})
+	// a reset whose re-fetch fails, followed by ordinary events
+	add(&mc.Scenario{
+		Name: "conv/reset-failed",
+		Conns: []mc.ConnSpec{
+			conn(latest, req("subscribe.test.m", 0), req("subscribe.test.c", 0)),
+			conn(latest, req("subscribe.test.c", 2)),
+		},
+		Threads: []mc.Thread{{Name: "svc", Ops: []mc.Op{
+			op("reset", 1, func(w *mc.World) { w.Data["reset"] = true; w.Svc.Reset([]string{"test.m", "test.c"}, nil) }),
+			{Name: "m.a=5", Phase: 2, When: noResetWindow, Do: func(w *mc.World) { w.Svc.Change("test.m", "a", `5`) }},
+			{Name: "c.add0", Phase: 2, When: noResetWindow, Do: func(w *mc.World) { w.Svc.Add("test.c", 0, `"n"`) }},
+			op("reset2", 3, func(w *mc.World) { w.Svc.Reset([]string{"test.>"}, nil) }),
+			{Name: "c.rm0", Phase: 3, When: noResetWindow, Do: func(w *mc.World) { w.Svc.Remove("test.c", 0) }},
+		}}},
+		Menu: func(w *mc.World, r *mc.Req) []mc.Outcome {
+			if isRefetch(w, r) {
+				return []mc.Outcome{w.OK(r), mc.ResErr("system.internalError"), mc.Timeout()}
+			}
+			return nil
+		},
+	})
 	// get requests and delete events
 	add(&mc.Scenario{
 		Name: "conv/get-delete",
